@@ -78,12 +78,22 @@ def file_spec(desc):
                     x = np.clip(x, 0.0, None)                         # exact zeros, no negatives
                 col[nm] = x
         col[inst['time']] = np.arange(N) * 2 + 5
+        if dt != 'I' and desc.get('negscatter'):
+            # baseline-subtracted (area) scatter signals: a share of the events is negative
+            g2 = np.random.default_rng(desc['seed'] + 1)
+            for si, nm in enumerate(sc_names):
+                col[nm] = g2.normal(140 + 30 * (si % 2), 110, N)
         if dt != 'I' and desc.get('overrange'):
             # floating point data may exceed the nominal range (compensation, area signals)
             for nm in sc_names[:2]:
                 jj = g.choice(N, size=max(2, N // 40), replace=False)
                 col[nm] = np.array(col[nm])
                 col[nm][jj] = g.uniform(1100, 4000, len(jj))
+        if dt != 'I' and desc.get('nudge'):
+            # a replicate acquisition: the same events with every fluorescence signal a fraction of a percent off
+            # (parameters derived from the extremes of any subset are nearly, not exactly, equal)
+            for nm in fl_names + sc_names:
+                col[nm] = np.array(col[nm], dtype=float) * desc['nudge']
         if dt == 'I':
             # a few saturated events in every scatter and fluorescence channel
             k = max(1, N // 60)
@@ -120,7 +130,7 @@ def file_spec(desc):
         events = [[float(np.float32(v)) for v in row] for row in ev.tolist()]
     amp = desc.get('amp', 'log')
     pne = [('4,1' if (nm in fl_names and amp == 'log' and dt == 'I') else '0,0') for nm in names]
-    extra = [['$TIMESTEP', '0.01'], ['$BTIM', '10:00:00'], ['$ETIM', '10:03:20'], ['$DATE', '05-JAN-2020']]
+    extra = [['$TIMESTEP', desc.get('timestep', '0.01')], ['$BTIM', '10:00:00'], ['$ETIM', '10:03:20'], ['$DATE', '05-JAN-2020']]
     volt = desc.get('volt', 500)
     for j, nm in enumerate(fl_names):
         if volt is not None:
@@ -240,6 +250,8 @@ def gen_experiment(rng, faults=True, max_samples=5, max_beads=2, small=False, pl
         if sp:
             f = sp['fault']
         n = rng.choice([800, 1000]) if not small else 760
+        if rng.chance(0.08):
+            n = 400                # exactly the documented minimum: still a well-formed row
         amp = 'log'
         # faults that need a particular context fall back to a context-free one
         fl0 = rng.choice(fl)
@@ -301,7 +313,7 @@ def gen_experiment(rng, faults=True, max_samples=5, max_beads=2, small=False, pl
             row['Beads ID'] = gb['ID']
             c = sorted(gb['mef'])[0]
             row['units'][c] = 'MEF'
-            volt = volt + 75
+            volt = rng.choice([volt + 75, volt + 75, 0])       # 0 V is a recorded setting too
         if f is None and rng.chance(0.4 if any((u or '').strip().lower() == 'mef' for u in row['units'].values()) else 0.15):
             volt = None            # a re-exported file without $PnV: the voltage check does not apply (documented optional)
         reuse = None
@@ -327,7 +339,19 @@ def gen_experiment(rng, faults=True, max_samples=5, max_beads=2, small=False, pl
                                     overrange=bool(dt == 'F' and rng.chance(0.4)),
                                     version=rng.choice(['FCS2.0', 'FCS3.0', 'FCS3.1']),
                                     byteord=rng.choice(['1,2,3,4', '4,3,2,1']),
-                                    layout_variant=rng.choice([None, None, None, 'time_first', 'reversed', 'swap_fl']))
+                                    layout_variant=rng.choice([None, None, None, 'time_first', 'reversed', 'swap_fl']),
+                                    timestep=rng.choice(['0.01'] * 9 + ['0', '0.0']),
+                                    negscatter=bool(dt == 'F' and rng.chance(0.3)))
+        twins = [n_ for n_, d_ in files.items() if d_['kind'] == 'cells' and d_.get('datatype') == 'F' and d_['inst'] is inst
+                 and n_ != row['File Path'] and not d_.get('nudge')]
+        if dt == 'F' and f is None and twins and rng.chance(0.6):
+            tname = rng.choice(twins)
+            src = files[tname]
+            keep = files[row['File Path']]
+            files[row['File Path']] = dict(src, nudge=rng.choice([1.001, 0.999, 1.002]), volt=keep['volt'])
+            prow = [x for x in exp['samples'] if x['File Path'] == tname and x['fault'] is None]
+            if prow and rng.chance(0.7):
+                row['units'] = dict(prow[0]['units'])          # replicates are usually reported alike
         if f == 'file_not_found':
             row['File Path'] = 'nowhere/none_%d.fcs' % k
         elif f == 'path_is_directory':
